@@ -77,8 +77,8 @@ Proof.
   destruct (match r_labels rc with Some common => _ | None => false end); [discriminate|].
   destruct (match match alookup (d_fq_name d) (r_dim_hashes rc) with Some h => Some h | None => alookup (d_fq_name d) [] end with
             | Some h => negb (h =? d_dim d) | None => false end); [discriminate|].
-  cbn [memN]. change (collector_id [d]) with (wrap64 (0 + d_id d)).
-  destruct (nlookup (wrap64 (0 + d_id d)) (r_collectors rc)); [discriminate|]. intros H. inversion H. cbn. auto.
+  cbn [memN]. change (collector_id [d]) with (ids_hash [d_id d]).
+  destruct (nlookup (ids_hash [d_id d]) (r_collectors rc)); [discriminate|]. intros H. inversion H. cbn. auto.
 Qed.
 Lemma reg_unregister_spec {C} (rc : regcore C) ds rc' : reg_unregister rc ds = Ok rc' ->
   r_collectors rc' = nremove (collector_id ds) (r_collectors rc) /\ r_prefix rc' = r_prefix rc /\ r_labels rc' = r_labels rc.
